@@ -57,7 +57,7 @@ impl ObjState for [CatPowerLimit] {
 
         if self
             .windows(2)
-            .any(|w| w[0].offset_end <= w[1].offset_start)
+            .any(|w| w[0].offset_end > w[1].offset_start)
         {
             errors.push(anyhow!(
                 "Catenary power limit offset pairs must be non-overlapping!"
